@@ -58,6 +58,16 @@ func (x *sliceInst) Ops() []space.Op {
 	}
 	// Fix at the two out-of-range indices (nothing can be overwritten there)
 	ops = append(ops, space.Op{Name: "Fix", Args: []int{-1}}, space.Op{Name: "Fix", Args: []int{n}})
+	// PopAll consumed partially (the consumer stops after k elements) and PopAll whose consumer
+	// pushes while iterating: the yielded elements are exactly the ones that left the heap
+	for k := 1; k <= 2 && k <= n; k++ {
+		ops = append(ops, space.Op{Name: "PopAllStop", Args: []int{k}})
+	}
+	if n >= 1 {
+		for v := 0; v < numValues; v++ {
+			ops = append(ops, space.Op{Name: "PopAllPush", Args: []int{v}})
+		}
+	}
 	return ops
 }
 
@@ -89,6 +99,47 @@ func (x *sliceInst) apply(op space.Op) *space.Mismatch {
 			return mm("Slice.Pop|not-minimal", "Pop returned %d although %d precedes it under %q; content %v", v, o, x.k, sorted(x.model))
 		}
 		x.model = rest
+
+	case "PopAllStop":
+		k := op.Args[0]
+		var got []int
+		for v := range x.s.PopAll() {
+			got = append(got, v)
+			if len(got) == k {
+				break
+			}
+		}
+		if len(got) != k {
+			return mm("Slice.PopAll|wrong-count", "PopAll stopped by the consumer after %d elements yielded %v, content was %v", k, got, sorted(x.model))
+		}
+		for _, v := range got {
+			rest, found := removeOne(x.model, v)
+			if !found {
+				return mm("Slice.PopAll|not-a-permutation", "PopAll yielded %d which is not in the content %v", v, sorted(x.model))
+			}
+			if o, bad := precededBy(x.cmp, rest, v); bad {
+				return mm("Slice.PopAll|not-sorted", "PopAll yielded %d although %d precedes it under %q", v, o, x.k)
+			}
+			x.model = rest // every yielded element has left the heap, the others are still in it (Check)
+		}
+
+	case "PopAllPush":
+		pv := op.Args[0]
+		want := append(sorted(x.model), pv)
+		var got []int
+		for v := range x.s.PopAll() {
+			if len(got) == 0 {
+				x.s.Push(pv)
+			}
+			got = append(got, v)
+			if len(got) > len(want)+2 {
+				break
+			}
+		}
+		if !sameMultiset(got, want) {
+			return mm("Slice.PopAll|element-lost-or-duplicated", "PopAll with Push(%d) while handling the first element yielded %v, want a permutation of %v", pv, got, sorted(want))
+		}
+		x.model = nil
 
 	case "Peek":
 		before := append([]int(nil), x.s.Values...)
